@@ -18,7 +18,7 @@ fi
 patched=$(run_demo)
 echo "[$name] demo patched: $patched"
 cd /verif
-out=$(VERIF_REPO_SRC=$wt/src VERIF_JOBS=${VERIF_JOBS:-8} timeout 3600 ./check $pid --tier $tier 2>&1); rc=$?
+out=$(VERIF_REPO_SRC=$wt/src VERIF_JOBS=${VERIF_JOBS:-8} timeout 2400 ./check $pid --tier $tier 2>&1); rc=$?
 echo "$out" | grep -E "signature:|-> " | head -6 | sed "s/^/[$name] /"
 git -C /repo worktree remove --force $wt >/dev/null 2>&1
 CLEAN="$clean" PATCHED="$patched" RC=$rc OUT="$out" TIER=$tier /venv/bin/python - "$d" <<'P'
